@@ -115,8 +115,19 @@ def run(ctx):
     pipeline.standard_check(ctx, P)
     if ctx.replay or ctx.violations:
         return
+    # node deletion / re-registration with a queued tunnel-address leak: for one node, its tunnel address, a failing
+    # ReleaseIPs and up to 3 syncs, EVERY history in which the injected failure hit a call (TLC, exhaustive;
+    # 1 245 behaviours, thinned by seed to 300 in quick tier)
+    PT = dict(P)
+    PT["design"] = []
+    PT["gen"] = {"module": "Gen_GCF", "cfg": "Gen_cover_tunnel.cfg", "workers": 1, "max": 300, "timeout": 600,
+                 "thorough_timeout": 1200}
+    PT["n_random"] = (0, 0)
+    pipeline.standard_check(ctx, PT)
+    if ctx.violations:
+        return
     if ctx.quick:
-        # (the VM grace period is exercised by a quarter of the seeded random histories in quick tier)
+        # (the VM grace period is exercised by a third of the seeded random histories in quick tier)
         return witness(ctx)
     # VM variant: long sleeps, VM grace period
     P2 = dict(P)
